@@ -278,6 +278,8 @@ async def _do(ac, op):
     if op == "refresh":
         await ac.refresh()
     elif op == "apply":
+        # a property-protocol setting is pending, so apply() also sends (and parses the answers to) a property write
+        ac.rate_select = AC.RateSelect.GEAR_50 if ac.rate_select != AC.RateSelect.GEAR_50 else AC.RateSelect.OFF
         await ac.apply()
     elif op == "caps":
         await ac.get_capabilities()
